@@ -58,10 +58,10 @@ func c14Alphabet(sys resolve.System, quick bool) *c14Alpha {
 	case resolve.NPM:
 		vers = []string{"1.0.0", "2.0.0-rc.1", "2.0.0"}
 		a.match = map[string]map[string]bool{
-			"*":      {"1.0.0": true, "2.0.0": true},
-			"^1.0.0": {"1.0.0": true},
+			"*":            {"1.0.0": true, "2.0.0": true},
+			"^1.0.0":       {"1.0.0": true},
 			">=2.0.0-rc.0": {"2.0.0-rc.1": true, "2.0.0": true},
-			"3.x":    {},
+			"3.x":          {},
 		}
 		a.attrs = []string{"", "latest", "blocked", "deleted"}
 		a.reqs = [][]c14Req{nil, {{"b", "^1.0.0", false}}, {{"a", "*", true}, {"c", "3.x", false}, {"B", "*", false}, {"b", "*", false}}}
@@ -78,10 +78,10 @@ func c14Alphabet(sys resolve.System, quick bool) *c14Alpha {
 	case resolve.PyPI:
 		vers = []string{"1.0", "2.0rc1", "2.0"}
 		a.match = map[string]map[string]bool{
-			"":        {"1.0": true, "2.0": true},
-			"==1.0":   {"1.0": true},
+			"":         {"1.0": true, "2.0": true},
+			"==1.0":    {"1.0": true},
 			">=2.0rc1": {"2.0rc1": true, "2.0": true},
-			">3":      {},
+			">3":       {},
 		}
 		a.attrs = []string{"", "redirect", "blocked", "deleted"}
 		a.reqs = [][]c14Req{nil, {{"b", "==1.0", false}}, {{"c", ">3", false}, {"b", ">=2.0rc1", false}, {"B", "", false}, {"a", "", false}}}
